@@ -160,6 +160,8 @@ impl WriteStallController {
 			}
 
 			#[cfg(surrealkv_verif)]
+			crate::verif::gate("stall.decided", &[]);
+			#[cfg(surrealkv_verif)]
 			crate::verif::emit(
 				"stall.wait",
 				&[("immutables", counts.immutable_memtables as u64), ("l0", counts.l0_files as u64)],
